@@ -25,6 +25,11 @@
 (*                   . FRelease (unlock, guardRc--)                         *)
 (*   drop(slot g)  = SSend (closed value into the oneshot) . SRelease      *)
 (*                   (flush guard field, wait mode only)                   *)
+(* A drop is a drop whether it is an ordinary `drop`, the end of a scope    *)
+(* or the unwinding of a panic of the thread that holds the object: the    *)
+(* property makes no exception, so the model has one set of drop actions   *)
+(* and the generators / the harness realise each of them in both ways      *)
+(* (history operation DropUnwind, `unwind` step lists, scenario op dropu). *)
 (* guardRc reaching 0 drops GuardInner and with it a closure that is still *)
 (* present (valueRc--).  Whoever brings valueRc to 0 runs the emission in   *)
 (* its own thread: the entry is closed field by field (EmitRead(s) takes   *)
